@@ -126,7 +126,7 @@ def main():
             print(json.dumps({"seed": d, "detected_by": detect(d)}, indent=1, ensure_ascii=False))
     elif mode == "matrix":
         root = os.path.join(VERIF, "seeded")
-        seeds = sorted(x for x in os.listdir(root) if os.path.isdir(os.path.join(root, x)))
+        seeds = sorted(x for x in os.listdir(root) if os.path.isdir(os.path.join(root, x)) and not x.startswith("_"))
         with ThreadPoolExecutor(4) as ex:
             dets = list(ex.map(lambda s: detect(os.path.join(root, s)), seeds))
         rows = []
